@@ -20,7 +20,7 @@ CFGS = {
     ("C05", "thorough"): dict(Ns="{0, 2, 3}", Opts="{0, 1, 2, 3, 4, 5, 6, 7}", MaxSends=5),
     # retention: every send rotates (2 + 2 > 3), ticks on so that equal and different mtimes both occur
     ("C06", "quick"): dict(Ls="{3}", Ns="{0, 1, 2, 3}", Opts="{0, 4}", Sizes="{2}", MaxSends=6, MaxDay=0, Ticks="TRUE"),
-    ("C06", "thorough"): dict(Ls="{3}", Ns="{-1, 0, 1, 2, 3, 4}", Opts="{0, 1, 4}", Sizes="{2}", MaxSends=7, MaxDay=1, Ticks="TRUE"),
+    ("C06", "thorough"): dict(Ls="{3}", Ns="{99, 0, 1, 2, 3, 4}", Opts="{0, 1, 4}", Sizes="{2}", MaxSends=7, MaxDay=1, Ticks="TRUE"),
     # size: all sizes around three limits
     ("C07", "quick"): dict(Ls="{2, 3, 5}", Ns="{0, 2}", Opts="{0, 1, 2}", Sizes="{1, 2, 3, 4}", MaxSends=4, MaxDay=1),
     ("C07", "thorough"): dict(Ls="{2, 3, 5}", Ns="{0, 2, 1}", Opts="{0, 1, 2, 3, 4}", Sizes="{1, 2, 3, 4, 6}", MaxSends=5, MaxDay=1),
